@@ -13,7 +13,7 @@ RULE = ('generated classes using MetaThreadSafeAttributes (1-4 attributes, optio
         'After every statement every attribute of every instance is read and compared with a per-instance dictionary model (fresh '
         'instance reads 0). distinct_nontrivial = distinct (classes, attributes, instances, history length, ops used) tuples')
 CASES = {'quick': 1500, 'thorough': 100000}
-BUDGET = {'quick': 40, 'thorough': 900}
+BUDGET = {'quick': 40, 'thorough': 300}
 REQUIRE = {'statements': 10000, 'reads_compared': 50000, 'fresh_instance_reads': 2000, 'subclass_cases': 100}
 ASSUME = ['single thread (concurrency is C27)', 'one statement per source line']
 
